@@ -78,9 +78,9 @@ def run_behaviour(fx, np, bid, h, variant=0, probe=True):
         i += 1
         act = a['act']
         raised, err, cont_ok = False, '', True
-        tgt = a.get('x') if act in ('New', 'Store', 'SetItem', 'SetItemFxp', 'Resize', 'Reset', 'SetCfg', 'SetCfgBad', 'Assign', 'Drop') else \
+        tgt = a.get('x') if act in ('New', 'Store', 'SetItem', 'SetItemFxp', 'Resize', 'Reset', 'SetCfg', 'SetCfgBad', 'Assign', 'Drop', 'IOp', 'SetRaw') else \
             a.get('z') if act == 'BinOpOut' else \
-            (a.get('y') if act in ('GetItem', 'CtorLike', 'NewLike', 'Like', 'LikeShallow', 'CopyShallow', 'DeepCopy', 'RShiftKeep', 'LShiftKeep', 'Invert') else a.get('z'))
+            (a.get('y') if act in ('GetItem', 'CtorLike', 'NewLike', 'Like', 'LikeShallow', 'CopyShallow', 'DeepCopy', 'RShiftKeep', 'LShiftKeep', 'Invert', 'ShiftExpand') else a.get('z'))
         for r in rec.values():
             if r is not None:
                 r.ev = []
@@ -206,7 +206,64 @@ def run_behaviour(fx, np, bid, h, variant=0, probe=True):
                     raised, err = True, type(ex).__name__
             elif act == 'BinOp':
                 x, y = heap[a['x']], heap[a['y']]
-                adopt(a['z'], (x + y) if a['op'] == 'add' else (x * y))
+                if a['op'] == 'sub':
+                    adopt(a['z'], [lambda: x - y, lambda: fx.sub(x, y), lambda: np.subtract(x, y)][(variant + i) % 3]())
+                else:
+                    adopt(a['z'], (x + y) if a['op'] == 'add' else (x * y))
+            elif act == 'BitOp':
+                import operator as _op
+                x, y = heap[a['x']], heap[a['y']]
+                f = {'and': _op.and_, 'or': _op.or_, 'xor': _op.xor}[a['op']]
+                adopt(a['z'], f(x, y[0]))                # an array combines with a SCALAR fixed-point operand
+            elif act == 'BitMask':
+                import operator as _op
+                x = heap[a['x']]
+                f = {'and': _op.and_, 'or': _op.or_, 'xor': _op.xor}[a['op']]
+                m = int(a['m']) if (variant + i) % 2 else np.int64(a['m'])
+                adopt(a['z'], f(x, m) if a['side'] == 'r' else f(int(a['m']), x))
+            elif act == 'ShiftExpand':
+                src = heap[a['x']]
+                src.config.shifting = 'expand'
+                n = int(a['n'])               # (a NumPy-typed count is refused in expand mode: 'n_word must be integer'; not C14's subject)
+                adopt(a['y'], (src << n) if a['dir'] == 'l' else (src >> n))
+            elif act == 'Reduce':
+                x = heap[a['x']]
+                rd = a['red']
+                route = (variant + i + bid) % 2
+                if rd == 'cumsum':
+                    z = np.cumsum(x) if route else x.cumsum()
+                else:
+                    f = {'sum': np.sum, 'max': np.max, 'min': np.min}[rd]
+                    z = f(x, keepdims=True) if route else getattr(x, rd)(keepdims=True)       # (the model's objects are 1-D arrays)
+                adopt(a['z'], z)
+            elif act == 'BinOpConst':
+                x = heap[a['x']]
+                k = val(a['k4'], common.fmt_dict(x))
+                op, left = a['op'], a['side'] == 'l'
+                # (a NumPy scalar on the LEFT goes through NumPy's own dispatch, which sizes the constant on its own: plain numbers there)
+                kk = k if left else [k, np.float64(k), int(k) if float(k).is_integer() else k][(variant + i) % 3]
+                if op == 'add':
+                    z = (kk + x) if left else (x + kk)
+                elif op == 'sub':
+                    z = (kk - x) if left else (x - kk)
+                else:
+                    z = (kk * x) if left else (x * kk)
+                adopt(a['z'], z)
+            elif act == 'IOp':
+                x, y = heap[a['x']], heap[a['y']]
+                if a['op'] == 'add':
+                    x += y
+                elif a['op'] == 'sub':
+                    x -= y
+                else:
+                    x *= y
+                adopt(a['x'], x)                           # the name is rebound to what the operator returned
+            elif act == 'SetRaw':
+                o = heap[a['x']]
+                cs = [int(c) for c in a['cs']]
+                cont = [list(cs), tuple(cs), np.array(cs, dtype=np.int64)][(variant + i + bid) % 3]
+                o.set_val(cont, raw=True)
+                cont_ok = [int(c) for c in cont] == cs
             elif act == 'BinOpOut':
                 x, y, z = heap[a['x']], heap[a['y']], heap[a['z']]
                 fn = fx.add if a['op'] == 'add' else fx.mul
@@ -234,7 +291,7 @@ def run_behaviour(fx, np, bid, h, variant=0, probe=True):
         except Exception as ex:
             obs = {n: {'null': True} for n in NAMES}
             raised, err = True, 'projection:' + type(ex).__name__ + ':' + str(ex)[:80]
-        cb = list(rec[tgt].ev) if (tgt in rec and rec[tgt] is not None and act in ('Store', 'SetItem', 'SetItemFxp')) else []
+        cb = list(rec[tgt].ev) if (tgt in rec and rec[tgt] is not None and act in ('Store', 'SetItem', 'SetItemFxp', 'SetRaw')) else []
         rows.append({'k': 'sys', 'b': bid, 'i': i, 'a': a, 'obs': obs, 'cb': cb, 'raised': bool(raised), 'err': err, 'cont': bool(cont_ok),
                      'route': act, 'carrier': 'heap'})
         if raised and act != 'SetCfgBad':
